@@ -98,6 +98,12 @@ fn evaluator_case(run: &Run, case_seed: u64) {
             gp.problem["objectives"] = json!([{"type": "minimize-unassigned"}, {"type": "minimize-tours"}, {"type": "minimize-duration"}]);
             run.observe("evaluator_objectives", "minimize-duration");
         }
+        // the rarely used opposite of minimize-tours: its estimate for a new tour is negative, but it is a route-level estimate,
+        // which is what the evaluator's pruning compares with the best known alternative
+        4 | 5 => {
+            gp.problem["objectives"] = json!([{"type": "minimize-unassigned"}, {"type": "maximize-tours"}, {"type": "minimize-cost"}]);
+            run.observe("evaluator_objectives", "maximize-tours, minimize-cost");
+        }
         _ => run.observe("evaluator_objectives", "default (minimize-cost)"),
     }
     let ReadOutcome::Ok(problem) = read_problem(&gp) else {
@@ -273,7 +279,7 @@ fn main() {
         70,
         600,
     );
-    run.assume("metric routing and the default objective list (activity-level estimates >= 0): the evaluator's pruning against the best known alternative is only claimed for those (DESIGN D10)");
+    run.assume("metric routing and objective lists whose activity-level estimates are >= 0 (cost, distance, duration; minimize- and maximize-tours estimate at route level): the evaluator's pruning against the best known alternative is only claimed for those (DESIGN D10)");
     run.assume("evaluator clause: single-task jobs and pickup+delivery pairs only (jobs with several pickups or deliveries are evaluated over randomly sampled task permutations, which is not deterministic selection)");
     run.assume("cost vectors are compared component-wise within 1e-9 relative (floating point noise of mathematically zero deltas); identity of job/route is not compared because ties may resolve differently");
     if let Some(path) = run.replay.clone() {
@@ -296,6 +302,9 @@ fn main() {
     run.floor("distinct per-thread partitions observed", run.observed("distinct_thread_partitions", "total"), 50);
     run.floor("evaluator cases with near-tie costs (vehicle twins)", run.observed("evaluator_cases", "vehicle twins with near-tie cost coefficients"), 20);
     run.floor("pickup+delivery pairs offered to evaluate_all", run.observed("offered_jobs", "pickup+delivery pair"), 20);
+    for o in ["minimize-distance", "minimize-duration", "maximize-tours, minimize-cost", "default (minimize-cost)"] {
+        run.floor(&format!("evaluator cases under the objectives: {o}"), run.observed("evaluator_objectives", o), 20);
+    }
     run.floor("sequential scans with a feasible insertion", run.observed("sequential_outcome", "success"), 10);
     for l in layouts.iter() {
         run.floor(&format!("solves under layout {}x{}", l.0, l.1), run.observed("solve_layout", &format!("{}x{}", l.0, l.1)), 2);
